@@ -64,6 +64,17 @@ def main(run):
     if quick and len(items) > 700:
         rng.shuffle(items)
         items = items[:700]
+    # directed: lists on which BOTH sorts fail after the first has already moved elements (3-4 sortable keys in random order plus
+    # two unorderable keys of one class), weakly ordered keys that tie, tuple keys next to the integers they contain
+    for _ in range(150 if quick else 1500):
+        srt = rng.choice([[[0, v] for v in range(1, 6)], [[0, 1], [2, 1], [0, 3], [2, 2], [0, 2]], [[1, v] for v in range(1, 6)],
+                          [[0, 1], [1, 1], [0, 2], [1, 2], [0, 3]], [[6, v] for v in range(0, 5)], [[7, v] for v in range(0, 5)],
+                          [[0, 1], [7, 2], [0, 2], [7, 3], [7, 4]]])
+        ks = rng.sample(srt, rng.randint(3, 4))
+        tail = rng.choice([[[4, 1], [4, 2]], [[4, 1], [4, 2]], [[4, 1]], []])
+        for t in tail:
+            ks.insert(rng.randint(2, len(ks)) if rng.random() < 0.7 else rng.randint(0, len(ks)), t)
+        items.append({'keys': [list(k) for k in ks]})
     run.extra['key_lists'] = len(items)
     # one-level nodes
     bounds = [('A', 3, 2, 2), ('B1', 3, 2, 2), ('B2', 3, 2, 2)] if quick else [('A', 4, 2, 2), ('B1', 4, 2, 2), ('B2', 4, 2, 2)]
